@@ -554,6 +554,30 @@ def check_straddle(acc, pendulum, loc, z, t, before_s, after_s):
             acc.mismatch("diff_for_humans", f"{loc}/same-zone-straddle/phrase", case, r, sorted(ok), kf=kf)
 
 
+def check_sweep(acc, pendulum, loc, start, ndays):
+    """Every whole-day distance 0..ndays from a start date (UTC values and Dates), both directions: unit and count."""
+    d = data(loc)
+    i0 = obs.wall_us(tuple(start) + (10, 0, 0, 0))
+    a = obs.utc_dt(pendulum, i0)
+    ad = pendulum.Date(*start)
+    for k in range(ndays + 1):
+        ib = i0 + k * 86400 * US
+        b = obs.utc_dt(pendulum, ib)
+        comps = ref_comps(i0, ib)
+        case = {"kind": "sweep", "loc": loc, "start": list(start), "k": k}
+        for recv, other, future in ((a, b, False), (b, a, True)):
+            r = basic(acc, "diff_for_humans", f"{loc}/day-sweep", case, lambda: recv.diff_for_humans(other, locale=loc))
+            ok = acceptable(d, comps, False, future, False)
+            if r is not None and ok and r not in ok and k:
+                acc.mismatch("diff_for_humans", f"{loc}/day-sweep/phrase", case, r, sorted(ok))
+        if k:
+            bd = pendulum.Date(b.year, b.month, b.day)
+            r = basic(acc, "diff_for_humans", f"{loc}/day-sweep/date", case, lambda: ad.diff_for_humans(bd, locale=loc))
+            ok = acceptable(d, comps, False, False, False)
+            if r is not None and ok and r not in ok:
+                acc.mismatch("diff_for_humans", f"{loc}/day-sweep/date/phrase", case, r, sorted(ok))
+
+
 def check_fold_pair(acc, pendulum, loc):
     """A reference inside a repeated hour, first as its earlier then as its later occurrence (equal wall clocks, same
     tzinfo - they compare equal natively): 30 and 90 minutes after 01:00 EDT."""
@@ -636,6 +660,14 @@ def run_shard(shard):
             acc.c["nontrivial"] += 1
         acc.sample({"locale": shard["locales"][0], "in_words": "every subset of 8 components x sign", "tokens": list(TOKENS),
                     "histories": "all orderings of 2 and 3 distinct calls on a cold locale cache"})
+    elif k == "sweep":
+        for loc in shard["locales"]:
+            for start in shard["starts"]:
+                acc.c["states"] += 1
+                acc.c["nontrivial"] += shard["ndays"]
+                with worker.guarded(acc, "diff_for_humans", {"kind": "sweep", "loc": loc, "start": list(start), "k": -1}, 60):
+                    check_sweep(acc, pendulum, loc, tuple(start), shard["ndays"])
+        acc.sample({"day_sweep_from": [list(x) for x in shard["starts"]], "days": shard["ndays"], "locales": shard["locales"]})
     elif k == "same-instant":
         for loc in shard["locales"]:
             for fa, fb in SI_PAIRS:
@@ -676,6 +708,8 @@ def replay_case(case, acc):
         check_pair(acc, pendulum, case["loc"], case["ia"], case["ib"], case.get("global", False))
     elif k == "si":
         check_same_instant(acc, pendulum, case["loc"], tuple(case["fa"]), tuple(case["fb"]))
+    elif k == "sweep":
+        check_sweep(acc, pendulum, case["loc"], tuple(case["start"]), 800)
     elif k == "straddle":
         check_straddle(acc, pendulum, case["loc"], case["z"], case["t"], case["before"], case["after"])
     elif k == "foldpair":
@@ -707,8 +741,10 @@ def plan(tier, seed):
         for ch in seeds.chunks(pts, 4):
             shards.append({"kind": "pairs", "locales": [loc], "left": ch})
     shards.append({"kind": "same-instant", "locales": locs})
+    for st in ((2021, 1, 1), (2020, 1, 31), (2023, 3, 15), (2023, 12, 31 - seed % 3)):
+        shards.append({"kind": "sweep", "locales": ["en", rot[0]], "starts": [st], "ndays": 800})
     # unit and count come from precise_diff: the instant pairs also run on its pure-Python twin
-    py = shards if thorough else [sh for sh in shards if sh["kind"] in ("pairs", "same-instant")] + [sh for sh in shards if sh["kind"] == "words"][::3]
+    py = shards if thorough else [sh for sh in shards if sh["kind"] in ("pairs", "same-instant", "sweep")] + [sh for sh in shards if sh["kind"] == "words"][::3]
     return [({"ext": 1, "tz": "sys"}, shards), ({"ext": 0, "tz": "sys"}, py)]
 
 
